@@ -361,7 +361,8 @@ def normalise_function(fnode, ref: dict, parts=("locals", "eqs", "ifs")) -> int:
                     changed += 1
     # ---- 3. if / else ---------------------------------------------------------------------
     refi = set(ref.get("ifs", [])) if "ifs" in parts else set()
-    if refi:
+    refn = set(ref.get("ifs_noelse", [])) if "ifs" in parts else set()
+    if refi or refn:
         for n in ast.walk(fnode):
             if isinstance(n, ast.If) and n.orelse and n.body:
                 t = _unparse(n.test)
@@ -370,6 +371,21 @@ def normalise_function(fnode, ref: dict, parts=("locals", "eqs", "ifs")) -> int:
                 if _negation_text(n.test) in refi:
                     n.test = _negate(n.test)
                     n.body, n.orelse = n.orelse, n.body
+                    changed += 1
+                elif all(isinstance(x, ast.Pass) for x in n.body) and t not in refn and _negation_text(n.test) in refn:
+                    # `if c: pass else: X` where the reference has `if not c: X`
+                    n.test = _negate(n.test)
+                    n.body, n.orelse = n.orelse, []
+                    changed += 1
+            elif isinstance(n, ast.If) and n.body and not n.orelse:
+                t = _unparse(n.test)
+                if t in refn or t in refi:
+                    continue
+                if _negation_text(n.test) in refi and _negation_text(n.test) not in refn:
+                    # `if not c: X` where the reference has `if c: pass else: X`
+                    n.test = _negate(n.test)
+                    n.orelse = n.body
+                    n.body = [ast.copy_location(ast.Pass(), n)]
                     changed += 1
     return changed
 
